@@ -13,20 +13,21 @@ import (
 
 // SpecCtx evaluates contract expressions to SMT terms in a given state.
 type SpecCtx struct {
-	f      *Frame
-	fn     *ssa.Function
-	params []Val
-	heap   *Heap
-	old    *Heap
-	binds  map[string]Val
-	result *Val
-	env    map[ssa.Value]Val
-	pkg    *types.Package
-	quiet  bool
-	failed bool
-	depth  int
-	block  *ssa.BasicBlock // loop header whose phis take precedence when a name is ambiguous
-	locals bool            // loop context: a name denotes the current value of the local variable, not the parameter's entry value
+	f        *Frame
+	fn       *ssa.Function
+	params   []Val
+	heap     *Heap
+	old      *Heap
+	binds    map[string]Val
+	result   *Val
+	env      map[ssa.Value]Val
+	pkg      *types.Package
+	quiet    bool
+	failed   bool
+	depth    int
+	block    *ssa.BasicBlock // loop header whose phis take precedence when a name is ambiguous
+	callArgs []Val           // atcall context: arg0, arg1, ... denote the actual arguments
+	locals   bool            // loop context: a name denotes the current value of the local variable, not the parameter's entry value
 }
 
 func (f *Frame) specCtx(h *Heap, env map[ssa.Value]Val) *SpecCtx {
@@ -107,6 +108,34 @@ func (en *Engine) lookupType(name string, pkg *types.Package) types.Type {
 		}
 		return types.NewSlice(t)
 	}
+	if strings.HasPrefix(name, "map[") {
+		d := 0
+		for j := 3; j < len(name); j++ {
+			if name[j] == '[' {
+				d++
+			} else if name[j] == ']' {
+				d--
+				if d == 0 {
+					k, v := en.lookupType(name[4:j], pkg), en.lookupType(name[j+1:], pkg)
+					if k == nil || v == nil {
+						return nil
+					}
+					return types.NewMap(k, v)
+				}
+			}
+		}
+		return nil
+	}
+	switch name {
+	case "int":
+		return types.Typ[types.Int]
+	case "string":
+		return types.Typ[types.String]
+	case "bool":
+		return types.Typ[types.Bool]
+	case "any":
+		return types.NewInterfaceType(nil, nil)
+	}
 	targ := ""
 	if j := strings.Index(name, "["); j > 0 && strings.HasSuffix(name, "]") {
 		targ = name[j+1 : len(name)-1]
@@ -175,6 +204,12 @@ func (c *SpecCtx) lookupIdent(name string) (Val, bool) {
 	}
 	if name == "now" {
 		return intV(c.heap.now), true
+	}
+	if strings.HasPrefix(name, "arg") && c.callArgs != nil {
+		var k int
+		if _, err := fmt.Sscanf(name, "arg%d", &k); err == nil && k < len(c.callArgs) {
+			return c.callArgs[k], true
+		}
 	}
 	if name == "rangepos" && c.block != nil && c.f != nil {
 		// byte position of the string iterator of the loop whose header is c.block
@@ -522,7 +557,14 @@ func (c *SpecCtx) eval(e SExpr) Val {
 		for _, tr := range x.Triggers {
 			var ts []string
 			for _, t := range tr {
-				ts = append(ts, sub.eval(t).E)
+				te := sub.eval(t).E
+				// has(m, k) is (and (not (= ref 0)) (select ...)): a connective cannot be a pattern
+				if strings.HasPrefix(te, "(and (not (= ") {
+					if parts := splitTop(te[1 : len(te)-1]); len(parts) == 3 && strings.HasPrefix(parts[2], "(select ") {
+						te = parts[2]
+					}
+				}
+				ts = append(ts, te)
 			}
 			// a struct-valued trigger (mk f1 f2 ...) would only match when every field is
 			// mentioned: use one pattern per field cell instead (any field read triggers)
